@@ -7,6 +7,7 @@ from __future__ import annotations
 
 import json
 import random
+import sys
 from pathlib import Path
 from typing import Any, Dict, List, Tuple
 
@@ -323,6 +324,127 @@ def snapshot_cadence(cr: CheckRun) -> None:
     cr.mark("snapshot-cadence")
 
 
+# ------------------------------------------------------------------ machine level: Machine.tla schedules on the whole machines
+
+def _script_from_machine_acts(acts) -> List[Dict[str, Any]]:
+    out: List[Dict[str, Any]] = []
+    for a in acts:
+        a = dict(a)
+        if a["ev"] == "TimerCfg":
+            out.append({"ev": "TimerCfg", "pm": int(a["pm"]), "ps": int(a["ps"])})
+        elif a["ev"] == "OnKey":
+            out.append({"ev": "OnKey"})
+            out.append({"ev": "OnKeyUp"})
+        elif a["ev"] == "Step":
+            ins = dict(a["ins"])
+            if ins["k"] == "WAIT":
+                out.append({"ev": "Step", "ins": {"k": "SETI", "v": int(ins["n"])}})
+                out.append({"ev": "Step", "ins": {"k": "WAIT"}})
+            elif ins["k"] == "CLRISR":
+                out.append({"ev": "Step", "ins": {"k": "CLRISR", "m": sorted(ins["m"])}})
+            elif ins["k"] == "SETIMR":
+                out.append({"ev": "Step", "ins": {"k": "SETIMR", "v": int(ins["v"])}})
+            else:
+                out.append({"ev": "Step", "ins": {"k": ins["k"]}})
+    return out
+
+
+def random_machine_script(rnd: random.Random, length: int) -> List[Dict[str, Any]]:
+    """timers of small and medium periods under programs that make time advance unevenly: WAITs of many lengths, HALT idling,
+    handlers (ticks suppressed while they run) that return late, masks opened and closed, acknowledges, OFF and the ON key"""
+    pm, ps = rnd.choice([(2, 0), (3, 4), (5, 7), (0, 3), (7, 5), (13, 31), (64, 9), (1, 1), (6, 0), (0, 0), (100, 17)])
+    out: List[Dict[str, Any]] = [{"ev": "TimerCfg", "pm": pm, "ps": ps}]
+    style = rnd.choice(["plain", "handlers", "sleepy", "waits"])
+    if style in ("handlers", "sleepy"):
+        out.append({"ev": "Step", "ins": {"k": "SETIMR", "v": rnd.choice([0x83, 0x81, 0x82, 0x8B])}})
+    for _ in range(length):
+        r = rnd.random()
+        if r < (0.30 if style == "waits" else 0.10):
+            out.append({"ev": "Step", "ins": {"k": "SETI", "v": rnd.choice([0, 1, 2, 3, 5, 8, 13, 40, 130])}})
+            out.append({"ev": "Step", "ins": {"k": "WAIT"}})
+        elif r < 0.40:
+            out.append({"ev": "Step", "ins": {"k": "CLRISR", "m": [rnd.choice([0, 1, 0, 1, 3])]}})
+        elif r < 0.50 and style in ("handlers", "sleepy"):
+            out.append({"ev": "Step", "ins": {"k": "RETI"}})
+        elif r < 0.58 and style in ("handlers", "sleepy"):
+            out.append({"ev": "Step", "ins": {"k": "SETIMR", "v": rnd.choice([0x83, 0x81, 0x82, 0x00, 0x03, 0x8B])}})
+        elif r < 0.66 and style == "sleepy":
+            out.append({"ev": "Step", "ins": {"k": "HALT"}})
+        elif r < 0.69 and style == "sleepy":
+            out.append({"ev": "Step", "ins": {"k": "OFF"}})
+        elif r < 0.73 and style == "sleepy":
+            out.append({"ev": "OnKey"})
+            out.append({"ev": "OnKeyUp"})
+            out.append({"ev": "Step", "ins": {"k": "NOP"}})
+        elif r < 0.76:
+            out.append({"ev": "TimerCfg", "pm": rnd.choice([0, 2, 3, 5, 9]), "ps": rnd.choice([0, 4, 7, 11])})
+            out.append({"ev": "Step", "ins": {"k": "NOP"}})
+        else:
+            out.append({"ev": "Step", "ins": {"k": rnd.choice(["NOP", "NOP", "ALU"])}})
+    return out
+
+
+def _machine_drive(shard_id, items, extra):
+    sys.path.insert(0, str(vlib.VERIF / "harness" / "py"))
+    vlib.setup_repo_imports()
+    import machine_harness as mh
+    vh = Vh()
+    events, meta = [], {}
+    tid = shard_id * 10_000_000
+    try:
+        for script in items:
+            for impl in ("rs", "py"):
+                tid += 1
+                m = mh.RustMachine(vh) if impl == "rs" else mh.PyMachine()
+                meta[tid] = {"impl": impl, "script": script}
+                events.extend(mh.run_script(m, script, tid))
+    finally:
+        vh.close()
+    return events, meta
+
+
+def machine_cadence(cr: CheckRun) -> None:
+    """Machine.tla: the timers driven by the machine's own cycle counter (instruction cycles, WAIT, HALT idle cycles, ticks suppressed
+    in handlers, nothing while powered off).  TLC checks the cadence clauses on the composition under both tick orders; its behaviours
+    are scripts for the real machines, whose recorded runs are judged by the same clauses (TraceMachineTimers.tla)."""
+    quick = cr.tier == "quick"
+    for order in ("post", "pre"):
+        cfg = f"MCMachine_{order}.cfg" if quick else f"MCMachine_{order}_t.cfg"
+        res = run_tlc(SD, "MCMachine", cfg, workers=vlib.NCPU, extra=["-coverage", "1"], tag="C13-" + cfg, timeout=3000, heap="8g")
+        if res.invariant_violated:
+            raise MachineryError(f"Machine model ({order}) violates {res.invariant_violated}")
+        tlc_expect_ok(res, cfg)
+        cov = res.coverage_actions()
+        for act in ("StepRun", "StepHalt", "StepOff", "OnKey"):
+            if act in cov and cov[act][1] == 0:
+                raise MachineryError(f"vacuity: {act} never taken (Machine, {order})")
+        cr.add_tlc(cfg, res)
+    vals, res = vlib.dump_behaviours(SD, "MCMachine", "MCMachine_replay.cfg", "C13m", var="acts", coverage=False)
+    tlc_expect_ok(res, "machine replay model")
+    cr.add_tlc("machine-replay-model", res)
+    items = [_script_from_machine_acts(v) for v in vals if len(v) >= 3]
+    items = items[:: max(1, len(items) // (1500 if quick else 20000))]
+    sims, res = vlib.sim_behaviours(SD, "MCMachine", "MCMachine_sim.cfg", 200 if quick else 3000, 40, cr.seed, "C13m", var="acts")
+    if res.invariant_violated:
+        raise MachineryError(f"Machine model violates {res.invariant_violated} (simulate)")
+    items += [_script_from_machine_acts(v) for v in sims if len(v) >= 3]
+    rnd = random.Random(cr.seed + 131)
+    items += [random_machine_script(rnd, 45) for _ in range(300 if quick else 5000)]
+    ntr, nev, bad = vlib.trace_campaign("C13", SD, "TraceMachineTimers", "TraceMachineTimers.cfg", items, _machine_drive, "machine-cadence")
+    for b, meta in bad:
+        d = b["detail"]
+        # a RETI executed while no delivery is outstanding (firmware using it as a far return): the Rust epilogue then clears a
+        # live status bit (the C12 finding 'no-return'), which can be the bit of a timer that fired in that very step
+        shape = ":reti-without-delivery" if (b["clause"] == "FireSetsStatus" and str(d[1]) == "RETI" and int(dict(d[2]).get("inint", 0)) == 0) else ""
+        cr.violation(f"Machine{b['clause']}:{meta['impl']}{shape}", f"{meta['impl']} machine: {b['clause']} ({d[0]}) fails at step {b['line']}: instr={d[1]} pre={dict(d[2])} post={dict(d[3])}",
+                     {"kind": "machine", "impl": meta["impl"], "script": meta["script"], "clause": b["clause"], "line": b["line"]})
+    cr.cov["traces_validated_against_impl"] += ntr
+    cr.cov["evaluations"] += nev
+    cr.cov.setdefault("campaigns", []).append({"name": "machine-cadence", "traces": ntr, "events": nev, "rejected_steps": len(bad)})
+    cr.add_sample({"campaign": "machine-cadence", "script": items[len(items) // 2][:12]})
+    cr.mark("machine-cadence")
+
+
 def unbounded(cr: CheckRun) -> None:
     """Apalache (symbolic integers): the target is always the least unconsumed boundary - for every cycle count, gap and restored
     target - and the C13 clauses follow from that in one step.  The step clauses are discharged for a symbolic period P > 0; the
@@ -385,11 +507,13 @@ def run(cr: CheckRun) -> None:
     # 4. machine level, the quantifier's "snapshot-restore points": a machine saved at ANY tick and loaded into a fresh one keeps
     #    the firing cadence (every position of timer-only scripts is a snapshot point; shares the machinery of C16)
     snapshot_cadence(cr)
+    # 5. machine level, "however the cycle counter advances": the composition Machine.tla and its schedules on both machines
+    machine_cadence(cr)
     cr.cov["distinct_nontrivial"] = len({json.dumps(b, sort_keys=True) for b in items + sitems + rnd})
     cr.cov["rule"] = "distinct (configuration, action sequence) behaviours with at least one Tick, replayed on both implementations"
     cr.cov["trusted_base"] = ["vh harness (timer.rs)", "TLC", "lib/vlib.py"]
     cr.assumptions += [
-        "scheduler-level: TimerScheduler.advance / TimerContext::tick_timers on bare objects; machine-level ticking (WAIT, HALT idle) is covered by the C12 machine traces",
+        "scheduler-level: TimerScheduler.advance / TimerContext::tick_timers on bare objects; machine-level ticking (instruction cycles, WAIT, HALT idle, handlers, OFF) is judged on whole-machine runs by TraceMachineTimers.tla, whose clauses do not depend on whether a machine ticks before or after the instruction (Machine.tla, both orders model-checked)",
         "cycle values are logged relative to a per-trace origin (origins up to 2^62) because TLC integers are 32-bit; periods up to 2^27",
         "`enabled` is part of the configuration / snapshot contents; toggling it between ticks without a restore is not in the property's quantifier",
     ]
